@@ -420,7 +420,9 @@ def check(pid, tier, seed):
                     known_seen.append((sig, listed[sig].get("what", "")))
                 else:
                     violations.append(("oracle", {"stage": stage, "record": rec, "verdict": v + " (signature not listed in known_findings.json)", "property": pid}, True))
-            for i, rec, v in cl["ok"][:: max(1, len(cl["ok"]) // 3)][:3]:
+            # samples: prefer non-trivial cases
+            nts = [x for x in cl["ok"] if "nt" in x[2].split()] or cl["ok"]
+            for i, rec, v in nts[:: max(1, len(nts) // 3)][:3]:
                 samples.append({"stage": stage, "record": rec[:600], "verdict": v[:200]})
             for i, rec, v in cl["oracle"]:
                 violations.append(("oracle", {"stage": stage, "record": rec, "verdict": v, "property": pid}, True))
